@@ -1,6 +1,7 @@
 package introspection
 
 import (
+	"fmt"
 	"strings"
 
 	"github.com/vektah/gqlparser/v2/ast"
@@ -118,8 +119,52 @@ func defaultValue(value *ast.Value) *string {
 	if value == nil {
 		return nil
 	}
-	val := value.String()
+	val := formatValue(value)
 	return &val
+}
+
+// formatValue renders a constant value like ast.Value.String, except that strings are quoted with
+// GraphQL escapes: strconv.Quote emits Go-only escapes (\a, \v, \x7f, \U0001f600) that a GraphQL
+// parser rejects, so such a default value could not be read back.
+func formatValue(v *ast.Value) string {
+	switch v.Kind {
+	case ast.StringValue, ast.BlockValue:
+		var sb strings.Builder
+		sb.WriteByte('"')
+		for _, r := range v.Raw {
+			switch {
+			case r == '"' || r == '\\':
+				sb.WriteByte('\\')
+				sb.WriteRune(r)
+			case r == '\n':
+				sb.WriteString(`\n`)
+			case r == '\r':
+				sb.WriteString(`\r`)
+			case r == '\t':
+				sb.WriteString(`\t`)
+			case r < 0x20 || r == 0x7f:
+				fmt.Fprintf(&sb, `\u%04x`, r)
+			default:
+				sb.WriteRune(r)
+			}
+		}
+		sb.WriteByte('"')
+		return sb.String()
+	case ast.ListValue:
+		elems := make([]string, 0, len(v.Children))
+		for _, elem := range v.Children {
+			elems = append(elems, formatValue(elem.Value))
+		}
+		return "[" + strings.Join(elems, ",") + "]"
+	case ast.ObjectValue:
+		elems := make([]string, 0, len(v.Children))
+		for _, elem := range v.Children {
+			elems = append(elems, elem.Name+":"+formatValue(elem.Value))
+		}
+		return "{" + strings.Join(elems, ",") + "}"
+	default:
+		return v.String()
+	}
 }
 
 func (t *Type) Interfaces() []Type {
